@@ -1,10 +1,10 @@
 package checks
 
 import (
-	"math"
 	"context"
 	"encoding/json"
 	"fmt"
+	"math"
 	"math/rand"
 	"sync"
 	"time"
